@@ -785,6 +785,35 @@ def no_global_mutation(tree, g, label):
                 for cname, attrs in class_mutables.items():
                     if base.attr in attrs and base.value.id in ("self", "cls", cname):
                         problems.append(f"{fn.name} line {n.lineno}: mutates class-level {cname}.{base.attr}")
+    # an attribute of an IMPORTED object (a third-party module, its preference / registry objects) assigned, or such an
+    # object mutated, from inside a function: state of the whole process, which outlives the call and the reader / writer
+    imported = set()
+    for st in tree.body:
+        if isinstance(st, (ast.Import, ast.ImportFrom)):
+            for al in st.names:
+                imported.add((al.asname or al.name).split(".")[0])
+    for fn in [n for n in ast.walk(tree) if isinstance(n, ast.FunctionDef)]:
+        local = {a.arg for a in fn.args.args + fn.args.kwonlyargs}
+        for n in ast.walk(fn):
+            if isinstance(n, ast.Name) and isinstance(n.ctx, ast.Store):
+                local.add(n.id)
+
+        def root(e):
+            while isinstance(e, (ast.Attribute, ast.Subscript)):
+                e = e.value
+            return e.id if isinstance(e, ast.Name) else None
+        for n in ast.walk(fn):
+            tgts = []
+            if isinstance(n, (ast.Assign, ast.AugAssign, ast.AnnAssign)):
+                tgts = [t for t in (n.targets if isinstance(n, ast.Assign) else [n.target]) if isinstance(t, (ast.Attribute, ast.Subscript))]
+            elif isinstance(n, ast.Delete):
+                tgts = [t for t in n.targets if isinstance(t, (ast.Attribute, ast.Subscript))]
+            elif isinstance(n, ast.Call) and isinstance(n.func, ast.Name) and n.func.id == "setattr" and n.args:
+                tgts = [ast.Attribute(value=n.args[0], attr="?", ctx=ast.Store())]
+            for t in tgts:
+                r = root(t.value)
+                if r in imported and r not in local:
+                    problems.append(f"{fn.name} line {n.lineno}: assigns state of the imported object {r} (process-wide)")
     g.check(f"{label}: no function mutates module-level or class-level containers", not problems,
             {"problems": problems[:6]})
 
